@@ -310,3 +310,20 @@ func contract_MarshalOptions_marshalField(o MarshalOptions, b []byte, fd protore
 	ensuresTrusted(imp(err == nil, len(r) >= len(b)))
 	return
 }
+
+// ---------------------------------------------------------------- reflection-path initialization check (C10)
+
+// checkInitializedSlow: a missing required field of this message is reported (each required number
+// is looked up with Has; a false answer returns RequiredNotSet), and an error found in a nested
+// message - inside the Range callbacks too - is never dropped.
+//
+// @ props C10
+// @ mode int
+// @ nopanic
+// @ guard-errors
+// @ pure protoreflect.Message.Has
+// @ site return errors.RequiredNotSet(string(fd.FullName())): !m.Has(fd)
+func contract_checkInitializedSlow(m protoreflect.Message) (err error) {
+	modifiesAll()
+	return
+}
